@@ -17,6 +17,7 @@ int w_static_dm(int null_diff, int decl_only, unsigned long nins, unsigned long 
 int w_bases_d(int null_diff, int kind, unsigned long ndel, unsigned long nins);
 int w_dm_added_removed_d(int null_diff, int kind, int decl_only, unsigned long nins, unsigned long ndel, int i0s, int i1s, int d0s, int d1s);
 int w_static_dm_d(int null_diff, int kind, int decl_only, unsigned long nins, unsigned long ndel, int i0s, int i1s, int d0s, int d1s);
+int w_virt_fn(int null_diff, int fmem, int smem, int fvirt, int svirt, unsigned long fo, unsigned long so);
 #define POST(c) __CPROVER_assert(c, "postcondition: " #c)
 void h_parms(void)
 {
@@ -143,4 +144,13 @@ void h_static_dm_d(void)
   int stat = (in_ni >= 1 && s[0]) || (in_ni >= 2 && s[1]) || (in_nd >= 1 && s[2]) || (in_nd >= 2 && s[3]);
   POST((r != 0) == (!in_null && in_kind == 3 && !in_do && stat));
   CANARY_h_static_dm_d;
+}
+/* C05 "changing the vtable": a member function that becomes (or stops being) virtual, or whose vtable slot moves. */
+void h_virt_fn(void)
+{
+  int in_null = nondet_int() != 0, in_fm = nondet_int() != 0, in_sm = nondet_int() != 0, in_fv = nondet_int() != 0, in_sv = nondet_int() != 0;
+  unsigned long in_fo = nondet_ulong(), in_so = nondet_ulong();
+  int r = w_virt_fn(in_null, in_fm, in_sm, in_fv, in_sv, in_fo, in_so);
+  POST((r != 0) == (!in_null && in_fm && in_sm && (in_fv != in_sv || in_fo != in_so)));
+  CANARY_h_virt_fn;
 }
